@@ -260,6 +260,7 @@ pub fn request_requirements(spec: &ReqSpec) -> Option<(Vec<Req>, Vec<Req>)> {
             confirm_timeout,
             persist,
             persist_id,
+            ..
         } => {
             hard.push(Req::Cap(CAP_CANDIDATE));
             let is_confirmed = *confirmed == Some(true);
@@ -491,9 +492,9 @@ pub fn spec_strategy() -> BoxedStrategy<ReqSpec> {
         2 => ds().prop_map(|t| ReqSpec::Lock { target: Some(t) }),
         2 => ds().prop_map(|t| ReqSpec::Unlock { target: Some(t) }),
         1 => prop_oneof![Just(0u32), Just(4711u32), 1u32..100].prop_map(|i| ReqSpec::KillSession { id: Some(i) }),
-        6 => (prop::option::of(any::<bool>()), prop::option::of(prop_oneof![Just(600u64), 1u64..5000]), tok_opt(), tok_opt())
-            .prop_map(|(confirmed, confirm_timeout, persist, persist_id)| ReqSpec::Commit {
-                confirmed, confirm_timeout, persist, persist_id }),
+        6 => (prop::option::of(any::<bool>()), prop::option::of(prop_oneof![Just(600u64), 1u64..5000]), tok_opt(), tok_opt(), 0u8..24)
+            .prop_map(|(confirmed, confirm_timeout, persist, persist_id, order)| ReqSpec::Commit {
+                confirmed, confirm_timeout, persist, persist_id, order }),
         2 => tok_opt().prop_map(|persist_id| ReqSpec::CancelCommit { persist_id }),
         1 => Just(ReqSpec::DiscardChanges),
         3 => prop_oneof![ds().prop_map(DsOrCfg::Ds), Just(DsOrCfg::Config("<top/>".into()))]
